@@ -54,7 +54,9 @@ func LowerASCII(domain string) string {
 // domains are simply converted to local-case using strings.ToLower, but the
 // error is also returned.
 func ForLookup(domain string) (string, error) {
-	uDomain, err := idna.ToUnicode(LowerASCII(domain))
+	// NFC first: LowerASCII would separate 'I' from a following combining
+	// mark that composes with the capital letter only (I + U+0307 is U+0130).
+	uDomain, err := idna.ToUnicode(LowerASCII(norm.NFC.String(domain)))
 	if err != nil {
 		return strings.ToLower(domain), err
 	}
